@@ -109,6 +109,30 @@ class X:
         self.op, self.ty, self.a = op, ty, a
 
 
+def _canon_term(v):
+    """a structural key of a term / value (for comparing the two ways of an untranslated condition)"""
+    if isinstance(v, X):
+        return ('X', v.op, v.ty, tuple(_canon_term(a) for a in v.a))
+    if isinstance(v, (tuple, list)):
+        return (type(v).__name__,) + tuple(_canon_term(a) for a in v)
+    if isinstance(v, dict):
+        return ('dict',) + tuple((k, _canon_term(a)) for k, a in sorted(v.items(), key=lambda kv: str(kv[0])))
+    if v is None or isinstance(v, (str, int, bool, float)):
+        return v
+    slots = getattr(type(v), '__slots__', None)
+    attrs = {k: getattr(v, k, None) for k in slots} if slots else dict(getattr(v, '__dict__', {}))
+    if not attrs and not slots and not hasattr(v, '__dict__'):
+        return ('id', id(v))
+    return (type(v).__name__,) + tuple((k, _canon_term(a)) for k, a in sorted(attrs.items()))
+
+
+def _same_term(a, b):
+    try:
+        return _canon_term(a) == _canon_term(b)
+    except RecursionError:
+        return False
+
+
 def zint(n):
     return X('int', 'Z', int(n))
 
@@ -1997,6 +2021,22 @@ class Exec:
                 if isinstance(s, ast.If) and (_has_exit([s]) or self.needs_split(s)):
                     c = self.cond(s.test, env)
                     if isinstance(c, Opaque):
+                        # an untranslated condition is harmless when both ways give the SAME term (for instance two
+                        # returns whose value is not observed): what is translated does not depend on it
+                        snap = {k: list(v) for k, v in self.call_obs.items()}
+                        snap_named = dict(self.call_named)
+                        try:
+                            t = self.block(list(s.body) + rest, dict(env), end, tail)
+                            self.binds = binds
+                            self.call_obs = {k: list(v) for k, v in snap.items()}
+                            self.call_named = dict(snap_named)
+                            f = self.block(list(s.orelse) + rest, dict(env), end, tail)
+                            self.binds = binds
+                            same = _same_term(t, f)
+                        except TranslationRefused:
+                            same = False
+                        if same:
+                            return self.wrap(binds, t)
                         raise TranslationRefused(self.spec['name'], f'line {s.lineno}: the function returns or '
                                                                      f'raises depending on: {c.why}')
                     if c.op == 'bool':
